@@ -121,6 +121,7 @@ def run(ctx):
     for b in builds:
         shutil.rmtree(b.root, ignore_errors=True)
     generated(ctx, agg)
+    manifest_precedence(ctx, agg)
     for key, lst in sorted(agg.items()):
         cf = sorted({c for c, _ in lst})
         ctx.violation(key, "%s  [%d configuration(s), e.g. %s]" % (lst[0][1], len(cf), cf[0]), {"configs": cf[:40]})
@@ -265,3 +266,45 @@ def generated(ctx, agg):
                 ctx.violation("C05/generated/non-header-line-changed/" + mode, "a line that is not a block header changed under the %s builder" % mode,
                               {"text": text, "mode": mode, "out": rep["ok"]})
     ctx.extra["generated_profiles"] = n
+
+
+def manifest_precedence(ctx, agg):
+    """A tree variant: a profile named by the common manifest is also named, with other flags, by the manifest of the
+    distribution. 'The common and per-distribution manifests' override the source flags in that order: the distribution's
+    entry is the one the built header carries."""
+    from .common import REPO
+    dist = ctx.rng.choice(["debian", "ubuntu", "whonix", "arch", "opensuse"])
+    cfg = matrix.Cfg(dist, "4", "4.0", "none", "normal")
+    main = model.read_flags(REPO, "main")
+    own = model.read_flags(REPO, dist)
+    exp = model.expected(REPO, dist, "4", "4.0", False)
+    cands = sorted(p for p, fl in main.items() if p not in own and p in exp.aad and fl)
+    if not cands:
+        ctx.inconcl("manifest precedence: no candidate profile for " + dist)
+        return
+    victims = ctx.rng.sample(cands, min(3, len(cands)))
+    newflags = {}
+    for v in victims:
+        newflags[v] = ["attach_disconnected"] if "attach_disconnected" not in main[v] else ["mediate_deleted"]
+
+    def mut(src):
+        with open(os.path.join(src, "dists", "flags", dist + ".flags"), "a") as f:
+            for v in victims:
+                f.write("%s %s\n" % (v, ",".join(newflags[v])))
+
+    b = matrix.run_build(ctx, cfg, tag="manifest-precedence", tap=False, src_mutator=mut)
+    if b.rc != 0:
+        ctx.inconcl("manifest precedence build failed: " + b.log[-200:])
+        return
+    for v in victims:
+        ctx.case(digest("manifest-precedence", dist, v), {"variant": "%s.flags gains `%s %s` (main.flags: %s)" % (dist, v, ",".join(newflags[v]), ",".join(main[v]))})
+        p = os.path.join(b.aad, v)
+        if not os.path.exists(p):
+            p += ".apparmor.d"
+        sc = scan.scan(matrix.read(p)) if os.path.exists(p) else None
+        got = sorted(sc.blocks[0].header.flags) if sc and sc.blocks else None
+        if got != sorted(newflags[v]):
+            agg.setdefault("C05/manifest-precedence", []).append((cfg.id, "%s is given (%s) by main.flags and (%s) by %s.flags: the built header has (%s), not the distribution's entry" % (
+                v, ",".join(main[v]), ",".join(newflags[v]), dist, ",".join(got or []))))
+    ctx.extra["manifest_precedence_variant"] = {"distribution": dist, "profiles": victims}
+    shutil.rmtree(b.root, ignore_errors=True)
